@@ -87,6 +87,15 @@ def sanitize(s):
     return re.sub(r"[^A-Za-z0-9_.-]+", "_", s)[:150]
 
 
+def evaluate(prop, repo=None, tier="quick"):
+    """Evaluate the rules of one property on the tree at `repo` (default: /repo). Returns (ctx, mod)."""
+    prog = facts.load(repo)
+    ctx = Ctx(prog, prop, tier)
+    mod = importlib.import_module("engine.kmtlint.rules.%s" % prop.lower())
+    mod.run(ctx)
+    return ctx, mod
+
+
 def run_property(prop, tier="quick", seed=0, replay=None):
     t0 = time.time()
     evidence_path = os.path.join(VERIF, "evidence", "%s.json" % prop)
@@ -95,19 +104,22 @@ def run_property(prop, tier="quick", seed=0, replay=None):
     except OSError:
         pass
     try:
-        prog = facts.load()
+        ctx, mod = evaluate(prop, None, tier)
+        prog = ctx.prog
     except facts.CheckerError as e:
         print("CHECKER-ERROR property=%s %s" % (prop, e))
         return 2
-    ctx = Ctx(prog, prop, tier)
-    try:
-        mod = importlib.import_module("engine.kmtlint.rules.%s" % prop.lower())
-        mod.run(ctx)
-        if tier == "thorough" and hasattr(mod, "run_thorough"):
-            mod.run_thorough(ctx)
     except Exception:
         print("CHECKER-ERROR property=%s rule engine crashed:\n%s" % (prop, traceback.format_exc()))
         return 2
+    thorough = None
+    if tier == "thorough":
+        from . import battery
+        try:
+            thorough = battery.run(prop, seed)
+        except Exception:
+            print("CHECKER-ERROR property=%s self-validation battery crashed:\n%s" % (prop, traceback.format_exc()))
+            return 2
 
     known = {k["key"]: k for k in load_known()
              if k.get("property") == prop and k.get("status") == "open"}
@@ -172,6 +184,7 @@ def run_property(prop, tier="quick", seed=0, replay=None):
                              "documented semantics of rayon/scc/flate2/bio/memmap2/clap as used",
                              "spec tables transcribed from properties.jsonl", "python3 stdlib"],
             "notes": ctx.notes,
+            "thorough": thorough,
         },
         "assumptions": getattr(mod, "ASSUMPTIONS", []),
         "wall_s": round(time.time() - t0, 3),
@@ -184,6 +197,9 @@ def run_property(prop, tier="quick", seed=0, replay=None):
           "[facts %s, %d fns, %.1fs]" % (prop, tier, len(ctx.results), len(oks), len(known_printed),
                                         len(new_viols), prog.key[:8], prog.n_functions(),
                                         time.time() - t0))
+    if thorough is not None and not thorough.get("ok", False):
+        print("CHECKER-ERROR property=%s self-validation failed: %s" % (prop, "; ".join(thorough.get("failures", []))[:1500]))
+        return 2 if not new_viols else 1
     return 1 if new_viols else 0
 
 
